@@ -753,6 +753,7 @@ def run(db, rep, tier):
     # which children lie outside a statement's scope
     import c04
     c04.r7(db, rep)
+    c04.r7b(db, rep)
     rep.assumptions += [
         "panicking paths (unwind edges, js_expect/expect failures) are outside these rules (they are C02's concern)",
     ]
